@@ -233,7 +233,10 @@ where
         let mut this = self.project();
 
         match this.inner.as_mut().project() {
-            CheckoutConnectingProj::ConnectingWithDelayDrop(connector) if connector.is_some() => {
+            // Only an attempt that has actually started is worth finishing in the background.
+            CheckoutConnectingProj::ConnectingWithDelayDrop(connector)
+                if connector.as_ref().is_some_and(|c| c.has_started()) =>
+            {
                 tracing::trace!("converting checkout to delayed drop");
                 Some(Checkout {
                     token: *this.token,
